@@ -318,7 +318,7 @@ func runC16(c *Ctx) {
 	// shared with C14: NearestMatch/MultipleMatch keep no scratch state between calls (R14.5); shared with C15: every
 	// archived text is read completely and paired with its own search set when the corpus is loaded (R15.2, R15.4)
 	checkV1SharedWrites(c, p)
-	borrowRules(c, []string{"R15.2", "R15.4", "R15.8"}, runC15)
+	borrowRules(c, []string{"R15.2", "R15.4", "R15.8", "R15.9"}, runC15)
 	mm := p.Func(core.RootMod, "(*License).MultipleMatch")
 	wct := p.Func(core.RootMod, "(*License).WithinConfidenceThreshold")
 	if !c.R.Anchor(mm != nil, "(*License).MultipleMatch") || !c.R.Anchor(wct != nil, "(*License).WithinConfidenceThreshold") {
